@@ -7,6 +7,20 @@ func init() {
 		Assumptions: []string{"sort.Search / sort.SearchFloat64s behave as documented"},
 		Fixtures:    []string{"n"},
 		Run:         runC17,
+		SelfTest: []Mutation{
+			{Name: "finer search result returned unconditionally (defect repaired)", File: "numerical/dense_search.go",
+				Old: "\tif subSolution, subValue := l.maximize(newMin, newMax, f, recursions-1); subValue > value {\n\t\treturn subSolution, subValue\n\t}\n\treturn solution, value", New: "\treturn l.maximize(newMin, newMax, f, recursions-1)", Rule: "BEST.RET", Expect: "LineSearch"},
+			{Name: "grid search keeps the last sample", File: "numerical/dense_search.go",
+				Old: "\t\t\tc := Vec2{x, y}\n\t\t\tv := f(c)\n\t\t\tif v > value {\n\t\t\t\tvalue = v\n\t\t\t\tsolution = c\n\t\t\t}", New: "\t\t\tc := Vec2{x, y}\n\t\t\tv := f(c)\n\t\t\tvalue = v\n\t\t\tsolution = c", Rule: "BEST.CMP", Expect: "GridSearch2D"},
+			{Name: "Minimize forgets to negate the value back", File: "numerical/dense_search.go",
+				Old: "\treturn c, -v\n}", New: "\treturn c, v\n}", All: true, Rule: "BEST.NEG", Expect: "Minimize"},
+			{Name: "polyline lookup with the raw search result (defect repaired)", File: "model2d/curves.go",
+				Old: "\tidx := sort.Search(len(s.lengths), func(i int) bool {\n\t\treturn s.lengths[i] > l\n\t}) - 1\n\tif idx < 0 {\n\t\tidx = 0\n\t}", New: "\tidx := sort.SearchFloat64s(s.lengths, l)\n\tif idx == len(s.segments) {\n\t\tidx -= 1\n\t}", Rule: "CUMTAB", Expect: "SegmentCurve"},
+			{Name: "area table built before the area is added", File: "render3d/light.go",
+				Old: "\t\tm.totalArea += t.Area()\n\t\tm.cumuAreas[i] = m.totalArea\n", New: "\t\tm.cumuAreas[i] = m.totalArea\n\t\tm.totalArea += t.Area()\n", Rule: "CUMTAB", Expect: "MeshAreaLight"},
+			{Name: "angle reflected instead of shifted (defect repaired)", File: "toolbox3d/angles.go",
+				Old: "theta = math.Mod(theta+2*math.Pi, 2*math.Pi)", New: "theta = math.Mod(2*math.Pi-theta, 2*math.Pi)", Rule: "CONGRUENT", Expect: "CanonicalAngle"},
+		},
 	})
 }
 
